@@ -696,7 +696,7 @@ theorem ackCore_ledger {s : State} {env : Env} {ranges : List Range} {lvl : Leve
   unfold State.ackCore at hn ⊢
   by_cases h1 : s.ackedBuf > 0
   · simp only [h1, if_true]; simp; exact d
-  · by_cases h2' : lvl = .oneRTT ∧ sp.hist.skipped.any (acksPacket ranges lowest largest)
+  · by_cases h2' : lvl = .oneRTT ∧ sp.hist.skipped.any (acksPacketBin ranges lowest largest)
     · simp only [h1, h2', if_false]; simp; exact d
     · simp only [h1, h2', if_false] at hn ⊢
       have cf := collect_frames (decide (ranges.length > 1)) lowest largest sp.hist.packets sp.hist.first ranges.reverse sp.hist.probes [] []
@@ -946,7 +946,7 @@ theorem timeoutMain_ledger {s : State} {env : Env} {now : Time} {nts : PN} {evs0
     (pending s ++ evFrames evs0 ++ disc0 ~ pending (s.timeoutMain env now nts evs0 disc0).1 ++
         evFrames (s.timeoutMain env now nts evs0 disc0).2.evs ++ (s.timeoutMain env now nts evs0 disc0).2.disc) ∧
       DummyOK (s.timeoutMain env now nts evs0 disc0).1 := by
-  unfold State.timeoutMain at hn ⊢
+  unfold State.timeoutMain State.timeoutMainG at hn ⊢
   split
   · rename_i h0
     rw [if_pos h0] at hn
@@ -962,7 +962,8 @@ theorem timeoutMain_ledger {s : State} {env : Env} {now : Time} {nts : PN} {evs0
   · rename_i h0
     rw [if_neg h0] at hn
     split
-    · simp only []
+    · unfold State.antiDeadlockProbe
+      simp only []
       split
       · exact ⟨List.Perm.refl _, d⟩
       · split
